@@ -28,4 +28,7 @@ def len (xs : List Rat) : Int := (xs.length : Int)
 /-- `int(x)` : truncation towards zero -/
 def trunc (x : Rat) : Int := if 0 ≤ x then x.floor else -((-x).floor)
 
+/-- `math.fabs` -/
+def fabs (x : Rat) : Rat := if x < 0 then -x else x
+
 end GeoVerif.Py
